@@ -1,9 +1,9 @@
 #!/bin/bash
 # store a confirmed seeded change under /verif/seeded/<ID>-<N>/ (patch.diff, demo, meta.json + what was run)
 id=$1; n=$2
-d=/verif/seeded/$id-$n; mkdir -p $d
-cp /tmp/seed/out/$id/patch$n.diff $d/patch.diff
-cp /tmp/seed/out/$id/demo${n}_test.go $d/demo_test.go.txt
+sfx=${SEEDSFX:-}; src=${SEEDOUT:-/tmp/seed/out}; d=/verif/seeded/$id-$n$sfx; mkdir -p $d
+cp $src/$id/patch$n.diff $d/patch.diff
+cp $src/$id/demo${n}_test.go $d/demo_test.go.txt
 conf=$(/verif/tools/seed_confirm.sh $id $n 2>&1)
-jq --arg conf "$conf" --arg prop "$id" '. + {breaks_property:$prop, confirmed_by_me: $conf, confirmation_cmd: ("tools/seed_confirm.sh "+$prop)}' /tmp/seed/out/$id/meta$n.json > $d/meta.json 2>/dev/null || { cp /tmp/seed/out/$id/meta$n.json $d/meta.json; echo "$conf" > $d/confirmed.txt; }
+jq --arg conf "$conf" --arg prop "$id" '. + {breaks_property:$prop, confirmed_by_me: $conf, confirmation_cmd: ("tools/seed_confirm.sh "+$prop)}' $src/$id/meta$n.json > $d/meta.json 2>/dev/null || { cp $src/$id/meta$n.json $d/meta.json; echo "$conf" > $d/confirmed.txt; }
 echo "$conf" | head -5
